@@ -1,13 +1,29 @@
 #!/bin/sh
-# regenerate every evidence file from the unchanged tree (quick tier), sequentially
+# usage: run_all_quick.sh [quick|thorough] [parallel-properties]
+# Runs every property's check of the given tier against VP_REPO (default /repo) and regenerates every evidence file.
+# Properties run P at a time (default 1 for quick = exactly what the registered commands do one after the other;
+# use e.g. "thorough 4" for a sweep).  Per-property logs: build/run_<id>.log, summary: build/run_all.log
 cd "$(dirname "$0")"
 mkdir -p build
-rc_all=0
-for id in C01 C02 C03 C04 C05 C06 C07 C08 C09 C10 C11 C12 C13 C14 C15 C16 C17 C18 C19; do
-	start=$(date +%s)
-	./check $id --tier ${1:-quick} > build/run_$id.log 2>&1
+tier=${1:-quick}; par=${2:-1}
+: > build/run_all.log
+one() {
+	id=$1; start=$(date +%s)
+	VP_JOBS=${VP_JOBS:-$(( 16 / par ))} ./check $id --tier $tier > build/run_$id.log 2>&1
 	rc=$?
-	echo "$id rc=$rc $(( $(date +%s) - start ))s $(grep -c ' pass ' build/run_$id.log) pass, $(grep -c 'VIOLATION' build/run_$id.log) viol, $(grep -c 'KNOWN-FINDING' build/run_$id.log) known, $(grep -c 'BROKEN' build/run_$id.log) broken"
-	[ $rc -ne 0 ] && rc_all=1
-done
-exit $rc_all
+	echo "$id rc=$rc $(( $(date +%s) - start ))s $(grep -c ' pass ' build/run_$id.log) pass, $(grep -c '^VIOLATION' build/run_$id.log) viol, $(grep -c 'KNOWN-FINDING' build/run_$id.log) known, $(grep -c 'BROKEN' build/run_$id.log) broken" | tee -a build/run_all.log
+}
+ids="C01 C02 C03 C04 C05 C06 C07 C08 C09 C10 C11 C12 C13 C14 C15 C16 C17 C18 C19"
+if [ "$par" -le 1 ]; then
+	for id in $ids; do one $id; done
+else
+	n=0
+	for id in $ids; do
+		one $id &
+		n=$((n + 1))
+		if [ $n -ge $par ]; then wait; n=0; fi
+	done
+	wait
+fi
+grep -qv "rc=0" build/run_all.log && exit 1
+exit 0
